@@ -98,15 +98,18 @@ func (c *c06) Plan(seed uint64, tier string, worker, workers, idx int) *Plan {
 			p.Shared = append(p.Shared, universe[r.Intn(len(universe))])
 		}
 	}
+	ladder := r.Chance(1, 3)
+	g.charsetNamesOn = !ladder && r.Chance(1, 4)
 	for i, n := 0, r.Intn(3); i < n; i++ {
 		p.Pre = append(p.Pre, Op{Kind: "extend", Ext: g.ext()})
 	}
 	p.Slots = 4
 	slot := 0
-	if r.Chance(1, 3) {
+	if ladder {
 		c06Ladder(r, p, g, universe)
 		return p
 	}
+
 	nt := r.Range(2, 4)
 	budget := 20 // operations per run: keeps the linearizability search tractable
 	// swarm: every run draws its own operation mix; kinds may be absent or dominant
@@ -159,10 +162,17 @@ func (c *c06) Plan(seed uint64, tier string, worker, workers, idx int) *Plan {
 				op = Op{Kind: "lookup"}
 				if len(g.made) > 0 && r.Chance(3, 4) {
 					e := g.made[r.Intn(len(g.made))]
-					names := e.Names()
+					names := lookupNames(e)
+					if len(names) == 0 {
+						names = []string{"text/csv"}
+						e = nil
+					}
 					op.Name, op.Ext = names[r.Intn(len(names))], e
 				} else {
 					op.Name = parents[2+r.Intn(len(parents)-2)].Name
+					if g.charsetNamesOn && lib.IsCharsetName(op.Name) {
+						op.Name = "text/csv"
+					}
 				}
 			case e == 4:
 				if nextLimit < len(limits) {
@@ -247,7 +257,7 @@ func c06Ladder(r *core.Rand, p *Plan, g *extGen, universe []inputs.Input) {
 				op.Del = randDelivery(r, len(in.Bytes()), 0)
 			default:
 				e := g.made[r.Intn(len(g.made))]
-				names := e.Names()
+				names := lookupNames(e)
 				op = Op{Kind: "lookup", Name: names[r.Intn(len(names))], Ext: e}
 			}
 			ops = append(ops, op)
